@@ -3,7 +3,7 @@
 # behaviour-preserving refactorings: every check must stay silent on each of them
 cd /verif
 IDS=${IDS:-$(python3 -c "import json;print(' '.join(c['property_id'] for c in json.load(open('MANIFEST.json'))['checks']))")}
-WT=/var/tmp/refrun/wt
+WT=${WT:-/var/tmp/refrun/wt}
 if [ ! -d $WT ]; then mkdir -p /var/tmp/refrun; git -C /repo worktree add --detach $WT HEAD -q; fi
 PATCHES=${@:-$(ls /verif/refactors/*.patch)}
 for p in $PATCHES; do
